@@ -16,7 +16,14 @@ Record wf (g : rgeo) : Prop := mkWf {
   wf_bottom : forall i j, (i < nx g)%nat -> (j < ny g)%nat -> top g (nz g) <= gsurf g i j
 }.
 
+Lemma has_spec g k i j : has g k i j = true <-> bot g k < gsurf g i j.
+Proof. unfold has. apply qlt_spec. Qed.
+
+Lemma bot0 g : bot g 0 = goz g.
+Proof. unfold bot. cbn [firstn qsum]. ring. Qed.
+
 Section Geo.
+Set Default Proof Using "All".
 Variable g : rgeo.
 Hypothesis W : wf g.
 
@@ -53,8 +60,6 @@ Proof. intros H. rewrite lcen_eq by lia. rewrite top_eq by lia. pose proof (thic
 Lemma top_le_bot k m : (k < m)%nat -> (m <= nz g)%nat -> top g m <= bot g k.
 Proof. intros. unfold top. apply bot_mono; lia. Qed.
 
-Lemma has_spec k i j : has g k i j = true <-> bot g k < gsurf g i j.
-Proof. unfold has. apply qlt_spec. Qed.
 Lemma has_mono k m i j : has g k i j = true -> (k <= m)%nat -> (m <= nz g)%nat -> has g m i j = true.
 Proof.
   rewrite !has_spec. intros H Hkm Hm. pose proof (bot_mono k m Hkm Hm). qc_lra.
